@@ -103,6 +103,8 @@ var zeroExpr, _ = hclsyntax.ParseExpression([]byte("null"), "z.hcl", hcl.Initial
 func scopeRisk(ctx *hcl.EvalContext) int { return hv.NumRisk(zeroExpr, ctx) }
 
 type job struct {
+	ref   *trefCase  // template reference oracle: the expectation computed from the generated tree
+	want  *cty.Value // hand case of the template reference oracle
 	text  string
 	full  string // the reference printer's rendering ("" = no precedence oracle)
 	ctx   *hcl.EvalContext
@@ -155,10 +157,18 @@ func run(cfg *hv.RunCfg) error {
 		}
 		// replay: "text" or "text   ## ..." as recorded in the case index; the witness scope is used
 		txt := string(b)
-		if i := strings.Index(txt, "   ## "); i >= 0 {
-			txt = txt[:i]
+		if i := strings.Index(txt, trefMark); i >= 0 {
+			// a recorded failure of the template reference oracle: source and expectation
+			if e, ok := decodeExpect(txt[i+len(trefMark):]); ok {
+				c := trefCase{src: txt[:i], form: "replay", spec: e, byLine: e}
+				jobs = append(jobs, job{text: c.src, ctx: refCtx(), ref: &c, label: "replay"})
+			}
+		} else {
+			if i := strings.Index(txt, "   ## "); i >= 0 {
+				txt = txt[:i]
+			}
+			jobs = append(jobs, job{text: txt, ctx: witnessCtx(), label: "replay"})
 		}
-		jobs = append(jobs, job{text: txt, ctx: witnessCtx(), label: "replay"})
 	} else {
 		for _, w := range witnesses {
 			jobs = append(jobs, job{text: w, ctx: witnessCtx(), label: "corpus:witness"})
@@ -170,8 +180,19 @@ func run(cfg *hv.RunCfg) error {
 		for _, e := range templateExamples {
 			jobs = append(jobs, job{text: e, ctx: witnessCtx(), tmpl: true, label: "corpus:template"})
 		}
+		for _, h := range trefHand {
+			w := h.want
+			jobs = append(jobs, job{text: h.src, ctx: refCtx(), want: &w, label: "corpus:template-reference"})
+		}
 		feat := map[string]int{}
+		tg := &tgen{r: hv.NewRng(cfg.Seed, 202), feat: feat}
 		for i := 0; i < cfg.N; i++ {
+			if r.Intn(100) < 30 { // template reference oracle: independent of the template parser
+				c := tg.gen()
+				jobs = append(jobs, job{text: c.src, ctx: refCtx(), ref: &c, label: "stream:template-reference"})
+				rep.Hist("scope:known-unmarked")
+				continue
+			}
 			eg := hv.NewEvalGen(r)
 			switch x := r.Intn(100); {
 			case x < 72:
@@ -278,6 +299,29 @@ func run(cfg *hv.RunCfg) error {
 						Detail: fmt.Sprintf("as written: %s %q; as spec.md groups it, %s: %s %q", hv.DumpVal(v), summaries(diags), j.full, hv.DumpVal(fv), summaries(fdiags)),
 						Input:  j.text})
 				}
+			}
+		}
+		// direct oracle: templates against the reference computed from the generated tree
+		if j.want != nil && (diags.HasErrors() || !v.RawEquals(*j.want)) {
+			rep.Fail(hv.Failure{Kind: "template-differs-from-reference",
+				Detail: fmt.Sprintf("hand case: evaluates to %s, hclsyntax/spec.md § Templates gives %s", describe(v, diags), hv.DumpVal(*j.want)),
+				Input:  j.text + trefMark + encodeExpect(texpect{val: *j.want})})
+		}
+		if j.ref != nil {
+			rep.Hist("oracle:template-reference-checked")
+			switch {
+			case sameOutcome(j.ref.spec, v, diags):
+			case sameOutcome(j.ref.byLine, v, diags):
+				kind := "template-strip-marker-limited-to-heredoc-line"
+				if j.ref.form == "flush" {
+					kind = "template-flush-heredoc-strip-marker-interplay"
+				}
+				rep.Fail(hv.Failure{Kind: kind,
+					Detail: fmt.Sprintf("evaluates to %s; the specification (strip markers act on the whole adjacent literal, indentation is removed from every line-leading literal) gives %s", describe(v, diags), j.ref.spec), Input: j.text})
+			default:
+				rep.Fail(hv.Failure{Kind: "template-differs-from-reference",
+					Detail: fmt.Sprintf("evaluates to %s; hclsyntax/spec.md § Templates gives %s (%s form)", describe(v, diags), j.ref.spec, j.ref.form),
+					Input:  j.text + trefMark + encodeExpect(j.ref.spec)})
 			}
 		}
 		info := &hv.ValInfo{}
